@@ -145,6 +145,30 @@ pub fn err_token(msg: &str) -> String {
     folded.chars().take(70).collect()
 }
 
+/// Plan features of the statement as the SHARDS see it: the partial statement of an exact
+/// plan, optimized in every shard context of the given cluster size. A statistics-driven
+/// rewrite (GroupKeyReduction) can fire on a shard -- whose row count is a fraction of the
+/// table's -- without firing on the whole table, so a finding keyed on that rewrite has to
+/// be looked for here too.
+pub fn shard_plan_features(base: &query_engine::ExecutionContext, sql: &str, count: usize) -> Vec<String> {
+    use query_engine::distributed::coordinator::shard_context;
+    use query_engine::distributed::{assign_lpt, splits_of};
+    let mut out: Vec<String> = Vec::new();
+    let Ok(plan) = plan_distributed(base, sql) else { return out };
+    let Ok(set) = splits_of(base, &plan.table, count) else { return out };
+    let assignment = assign_lpt(&set, count);
+    for idx in 0..count {
+        if let Ok((ctx, _)) = shard_context(base, &plan.table, &set, &assignment, idx) {
+            for f in crate::kit::planfeat::plan_features(&ctx, &plan.partial_sql) {
+                if !out.contains(&f) {
+                    out.push(f);
+                }
+            }
+        }
+    }
+    out
+}
+
 pub fn stmt_features(st: &Stmt, shape: &str, got: &Outcome) -> Vec<String> {
     let mut f = vec![format!("family:{}", st.family), format!("shape:{shape}")];
     f.extend(st.features.iter().cloned());
@@ -218,6 +242,11 @@ pub fn run_c09(_prop: &str, _tier: Tier, run_seed: u64, ov: &Value) -> RunOut {
                     {
                         let mut f = stmt_features(st, &shape, &got);
                         f.extend(crate::kit::planfeat::plan_features(&sc.world.single, &st.sql));
+                        for x in shard_plan_features(base, &st.sql, count) {
+                            if !f.contains(&x) {
+                                f.push(x);
+                            }
+                        }
                         f
                     },
                     format!("{} [{}] nodes={count} initiator={initiator}: {d}", st.sql, shape),
